@@ -474,7 +474,8 @@ def h_roundtrip_x_g(nb, sym):
     e.register_input('min_0', mn)
     e.register_input('max_0', mx)
     x = SymArray.fresh('x', (1,), np.float32)
-    e.assume(z3.And(mn <= mx, x.el[0] >= mn, x.el[0] <= mx))
+    e.assume(z3.And(mn <= mx, x.el[0] >= mn, x.el[0] <= mx, mn >= -FM32,
+                    mx <= FM32))
     e.assume(_lemma_c(nb, sym, s, _zint(zp), mn, mx))
     p = qtyping.UniformQuantParams(num_bits=nb, quantized_dimension=None,
                                    scale=sc, zero_point=zp, symmetric=sym)
@@ -972,7 +973,8 @@ def _replay_rerr(d, ob, kind, nb, sym):
     z = int(p.zero_point[0])
     lemma = ((lo - z) * s - s / 2 - s * slack / 2 <= mn
              and (hi - z) * s + s / 2 + s * slack / 2 >= mx)
-    if not (lemma and mn <= x <= mx and s >= 2.0 ** -30):
+    if not (lemma and mn <= x <= mx and s >= 2.0 ** -30 and np.isfinite(s)
+            and np.isfinite(x) and np.isfinite(mn) and np.isfinite(mx)):
       return None, 'outside-guarantee', 'rounded model leaves the guarantee'
     q = uqt.uniform_quantize(np.array([x], np.float32), p)
     dq = uqt.uniform_dequantize(q, p)
